@@ -158,9 +158,27 @@ def parseFCall (t : String) : Option FCall :=
   | ["fin", s] => (parseFStep s).map .fin
   | _ => none
 
+/-- `k=v,k=v` in lower-case hex (`-` = empty value; the whole field `-` = no attributes), in listing order -/
+def parseXattrs (s : String) : Option (List (Name × Bytes)) :=
+  if s = "-" then some [] else
+  parseAll (fun kv => match kv.splitOn "=" with
+    | [k, v] => match parseHex k, parseHex v with
+      | some k, some v => some (k, v)
+      | _, _ => none
+    | _ => none) (s.splitOn ",")
+
+def showXattrs (l : List (Name × Bytes)) : String :=
+  if l.isEmpty then "-" else ",".intercalate (l.map fun kv => s!"{showHex kv.1}={showHex kv.2}")
+
+/-- `mode:uid:gid:mtime` or `mode:uid:gid:mtime:xattrs` -/
 def parseMeta (t : String) : Option FMeta :=
-  match (t.splitOn ":").map String.toNat? with
-  | [some m, some u, some g, some t] => some ⟨m, u, g, t, []⟩
+  match t.splitOn ":" with
+  | [m, u, g, t] => match m.toNat?, u.toNat?, g.toNat?, t.toNat? with
+    | some m, some u, some g, some t => some ⟨m, u, g, t, []⟩
+    | _, _, _, _ => none
+  | [m, u, g, t, x] => match m.toNat?, u.toNat?, g.toNat?, t.toNat?, parseXattrs x with
+    | some m, some u, some g, some t, some x => some ⟨m, u, g, t, x⟩
+    | _, _, _, _, _ => none
   | _ => none
 
 /-- Rust's `Path::components()` on raw bytes -/
@@ -359,9 +377,10 @@ def answer (line : String) : String :=
     match parseCfg {} cf, r2 with
     | some c, [sm, dm] =>
       match parseMeta sm, parseMeta dm with
-      | some sm, some dm =>
-        let r := finalise c sm linuxChownFx dm
-        s!"ok {r.mode}:{r.uid}:{r.gid}:{r.mtime}"
+      | some smeta, some dmeta =>
+        let r := finalise c smeta linuxChownFx dmeta
+        if (sm.splitOn ":").length = 5 then s!"ok {r.mode}:{r.uid}:{r.gid}:{r.mtime}:{showXattrs r.xattrs}"
+        else s!"ok {r.mode}:{r.uid}:{r.gid}:{r.mtime}"
       | _, _ => "bad-op"
     | _, _ => "bad-op"
   -- `node <kind> <mode> <rdev> <umask> <noclobber> <destexists> <destremovable>`
